@@ -8,6 +8,9 @@ import re
 import glob
 
 
+WORKSPACE_CRATES = ('lorawan', 'lorawan_device', 'lora_phy', 'lora_modulation')
+
+
 def strip_turbofish(p):
     """remove `::<...>` groups (balanced) from a def path"""
     out = []
@@ -289,7 +292,7 @@ class Term:
         c = self.func.const
         if c is None:
             return None
-        if c.get('res') and c.get('res_local'):
+        if c.get('res') and (c.get('res_local') or c['res'].lstrip('<').split('::')[0] in WORKSPACE_CRATES):
             return strip_turbofish(c['res'])
         p = c.get('fn')
         return strip_turbofish(p) if p else None
